@@ -23,8 +23,8 @@ NORMAL, BREAK, CONTINUE, RETURN, RAISE = 'normal', 'break', 'continue', 'return'
 
 
 class ForkReq(Exception):
-    def __init__(self, cond):
-        self.cond = cond
+    def __init__(self, cond, key=None):
+        self.cond, self.key = cond, key
 
 
 class RaiseReq(Exception):
@@ -45,18 +45,20 @@ class Obligation:
 
 
 class State:
-    __slots__ = ('env', 'pc', 'old', 'tainted', 'spec', 'trace', 'aliased', 'defs')
+    __slots__ = ('env', 'pc', 'old', 'tainted', 'spec', 'trace', 'aliased', 'defs', 'forced')
 
     def __init__(self):
         self.env, self.pc, self.old = {}, [], None
         self.tainted, self.spec, self.trace, self.aliased = False, False, [], set()
         self.defs = []       # definitional constraints of fresh symbols created while evaluating a spec
+        self.forced = {}     # decisions already taken for the statement being re-executed after a fork (site key -> bool)
 
     def clone(self):
         s = State()
         s.env, s.pc, s.old = dict(self.env), list(self.pc), self.old
         s.tainted, s.spec, s.trace, s.aliased = self.tainted, self.spec, list(self.trace), set(self.aliased)
         s.defs = self.defs   # shared on purpose: definitions are collected by the outermost spec evaluation
+        s.forced = dict(self.forced)
         return s
 
     def define(self, fact):
@@ -122,7 +124,9 @@ class Engine:
 
     # ------------------------------------------------------------------------------------
     # solver helpers
-    def decide(self, st, cond):
+    def decide(self, st, cond, key=None):
+        if key is not None and key in st.forced:
+            return st.forced[key]      # this statement is being re-executed after a fork on exactly this decision
         cond = z3.simplify(cond)
         if z3.is_true(cond):
             return True
@@ -302,13 +306,17 @@ class Engine:
         try:
             res = self._exec_stmt(work, stmt)
             self.stmts_modelled.add(stmt.lineno)
+            for s_out, _ in res:
+                s_out.forced = {}
             return res
         except ForkReq as f:
             del self.obligations[n_obl:]
             out = []
-            for c in (f.cond, z3.Not(f.cond)):
+            for branch, c in ((True, f.cond), (False, z3.Not(f.cond))):
                 s2 = st.clone()
                 s2.pc.append(c)
+                if f.key is not None:
+                    s2.forced[f.key] = branch
                 if self.feasible(s2):
                     out.extend(self.exec_stmt(s2, stmt))
             return out
@@ -524,6 +532,8 @@ class Engine:
     def as_sequence(self, it, st):
         if isinstance(it, VSeq):
             return (it.length, it.get)
+        if isinstance(it, VRec) and 'labels' in it.fields:      # iterating an (abstract) index yields its labels in order
+            return self.as_sequence(it.fields['labels'], st)
         if isinstance(it, VList):
             return (it.length, lambda i, it=it: list_get(it, i))
         if isinstance(it, VRange):
@@ -765,7 +775,8 @@ class Engine:
 
     def ev_IfExp(self, node, st):
         c = self.ev_cond(node.test, st)
-        d = self.decide(st, c)
+        fkey = ('ifexp', node.lineno, node.col_offset)
+        d = self.decide(st, c, fkey)
         if d is True:
             return self.ev(node.body, st)
         if d is False:
@@ -785,7 +796,7 @@ class Engine:
         except Unsupported:
             if st.spec:
                 raise
-            raise ForkReq(c)
+            raise ForkReq(c, fkey)
 
     def ev_BoolOp(self, node, st):
         vals = []
@@ -995,6 +1006,8 @@ class Engine:
         a = node.attr
         if isinstance(base, VSlice) and a in ('start', 'stop', 'step'):
             return getattr(base, a)
+        if a == '__class__' and isinstance(base, VU):
+            return VConst(('class', '<opaque>'))
         if a == '__class__' and isinstance(base, (VSlice, VInt, VBool, VList, VTuple)):
             return VConst(('builtin', {VSlice: 'slice', VInt: 'int', VBool: 'bool', VList: 'list', VTuple: 'tuple'}[type(base)]))
         if isinstance(base, VRec):
